@@ -98,6 +98,19 @@ def _classify(oc, exc_name, evname='errorvalue'):
     if uses_exc and not uses_ev:
         return 'deliver-exception'
     if uses_ev and not uses_exc:
+        # errorvalue itself goes into the cell: the name is delivered bare (`return errorvalue`, `val = errorvalue`), not
+        # called, indexed or otherwise made into something else
+        for s in texts:
+            for x in ast.walk(s):
+                if isinstance(x, ast.Name) and x.id == evname:
+                    pass
+            v = s.value if isinstance(s, (ast.Return, ast.Assign)) else (s.value.value if isinstance(s, ast.Expr) and isinstance(s.value, ast.Yield) else None)
+            if v is not None and _uses_name(v, evname):
+                bare = isinstance(v, ast.Name) or (isinstance(v, (ast.Tuple, ast.List)) and all(isinstance(e, ast.Name) for e in v.elts)) \
+                    or (isinstance(v, ast.Call) and norm(v.func) in ('tuple', 'list') and len(v.args) == 1 and
+                        isinstance(v.args[0], (ast.List, ast.Tuple)) and all(isinstance(e, ast.Name) for e in v.args[0].elts))
+                if not bare:
+                    return 'something made from errorvalue (%s)' % norm(v)[:40]
         return 'errorvalue'
     if not texts:
         return 'drop'
@@ -235,25 +248,32 @@ def _check_handler(rep, fn, kind, tr, h, pname='failonerror', evname='errorvalue
     for n in ast.walk(h):
         if isinstance(n, ast.If):
             atoms |= set(atoms_of(n.test))
-    unknown = atoms - {"%s == 'inline'" % pname, pname}
-    if unknown:
-        rep.undecided('R19.1', fn, 'except Exception', 'handler tests %s' % sorted(unknown), h)
+    unknown = sorted(atoms - {"%s == 'inline'" % pname, pname})
+    if len(unknown) > 3:
+        rep.undecided('R19.1', fn, 'except Exception', 'handler tests %s' % unknown, h)
         return
     want = {'False': 'errorvalue' if kind == 'cell' else 'drop', 'True': 'raise', 'inline': 'deliver-exception'}
+    import itertools as _it
     for pol, val in _policies(pname).items():
-        try:
-            oc = simulate(h.body, val)
-        except Unsupported as e:
-            rep.undecided('R19.1', fn, 'failonerror=%s' % pol, str(e), h)
-            continue
-        got = _classify(oc, exc, evname)
-        if got == want[pol]:
-            rep.held('R19.1', fn, 'failonerror=%s' % pol, '-> %s' % got, h)
-        else:
-            rep.violated('R19.1', fn, 'failonerror=%s' % pol,
-                         'with failonerror=%s the handler does `%s` (%s), the contract requires `%s`'
-                         % (pol, got, '; '.join(oc.effect_texts()) or (norm(oc.node) if oc.node is not None else 'nothing'),
-                            want[pol]), h)
+        # the outcome is a function of the policy alone: whatever else the handler tests (the kind of errorvalue, the
+        # exception class, ...), every setting of it must end in the outcome the policy prescribes
+        for extra in _it.product((False, True), repeat=len(unknown)):
+            v2 = dict(val)
+            v2.update(dict(zip(unknown, extra)))
+            label = 'failonerror=%s' % pol + ((' [%s]' % ', '.join('%s: %s' % kv for kv in zip(unknown, extra))) if unknown else '')
+            try:
+                oc = simulate(h.body, v2)
+            except Unsupported as e:
+                rep.undecided('R19.1', fn, label, str(e), h)
+                continue
+            got = _classify(oc, exc, evname)
+            if got == want[pol]:
+                rep.held('R19.1', fn, label, '-> %s' % got, h)
+            else:
+                rep.violated('R19.1', fn, label,
+                             'with %s the handler does `%s` (%s), the contract requires `%s`'
+                             % (label, got, '; '.join(oc.effect_texts()) or (norm(oc.node) if oc.node is not None else 'nothing'),
+                                want[pol]), h)
 
 
 def _check_try_scope(ctx, rep, fn, tr, pname='failonerror'):
